@@ -234,6 +234,55 @@ func (ch c11) Run(c *core.Ctx) {
 		envHookTLS.Stop()
 		envHookPlain.Stop()
 	}
+	// an SSLRequest whose length field announces more than the request code: the bytes behind the code
+	// belong to that packet. They are no start-up packet (nothing is authenticated on their account) and
+	// no part of the TLS handshake that follows the 'S'
+	if c.Begin(940000) {
+		startup := pg.Startup([][2]string{{"user", "smuggled"}})
+		for _, payload := range [][]byte{startup, startup[:9], {0x16, 0x03, 0x01, 0x00, 0x05, 1, 0, 0, 1, 0}, {0}} {
+			for _, e := range []*hs.Env{envNone, envTLS} {
+				want := "N"
+				if e == envTLS {
+					want = "S"
+				}
+				prog := &hs.Prog{Stmts: []*hs.Stmt{{ID: "t", Cols: textCols(1), Ops: []hs.Op{{K: "row", Vals: []any{"v"}}, {K: "complete", Tag: "SELECT 1"}}}}}
+				conn := e.Dial(&hs.Sess{Default: func(string) *hs.Prog { return prog }})
+				conn.Send(pg.StartupRaw(pg.VerSSL, payload))
+				closed, _ := conn.Quiesce()
+				out := string(conn.Out())
+				c.Count("sslrequests_with_payload", 1)
+				c.Eval(fmt.Sprintf("sslrequest payload %d %s", len(payload), want), true)
+				cs := map[string]any{"payload_bytes": len(payload), "certificates": want == "S"}
+				if closed && out == "" {
+					continue // refused outright: also fine
+				}
+				if out != want {
+					c.Violate("ssl-reply", "an SSLRequest carrying bytes behind its code is answered with more than the single byte "+want, fmt.Sprintf("payload of %d bytes: server sent %s", len(payload), trim(replyKinds([]byte(out[min(1, len(out)):])), 200)), cs)
+					conn.CloseWrite()
+					conn.WaitClosed()
+					continue
+				}
+				if want == "S" {
+					t := &c11tls{conn: conn, cc: &tr.ClientConn{C: conn, Pos: 1}}
+					t.tc = tls.Client(t.cc, hs.ClientTLS())
+					if err := t.tc.Handshake(); err != nil {
+						c.Violate("upgrade", "TLS handshake fails after an SSLRequest that carried bytes behind its code", err.Error(), cs)
+					} else if o, _ := t.step(append(pg.Startup([][2]string{{"user", "u"}}), pg.Query("t")...)); !strings.HasSuffix(pg.Types(mustMsgs(o)), "TDCZ") {
+						c.Violate("upgrade", "session inside TLS not served after an SSLRequest that carried bytes behind its code", replyKinds(o), cs)
+					}
+					t.tc.Close()
+				} else {
+					cl := &hs.Client{C: conn}
+					cl.Wait()
+					if o, _ := cl.Step(append(pg.Startup([][2]string{{"user", "u"}}), pg.Query("t")...)); !strings.HasSuffix(pg.Types(mustMsgs(o)), "TDCZ") {
+						c.Violate("upgrade", "plaintext session not served after a declined SSLRequest that carried bytes behind its code", replyKinds(o), cs)
+					}
+				}
+				conn.CloseWrite()
+				conn.WaitClosed()
+			}
+		}
+	}
 	// many clients that get their 'S' and then fail the handshake (hang up, send something that is no
 	// ClientHello): whatever they leave behind, the next SSLRequest is answered and upgraded as ever
 	if c.Begin(920000) {
